@@ -226,6 +226,36 @@ def run_scenario(exe, scen, seed, n, params=None, timeout=900, extra_env=None):
                  timeout=timeout + 30)
     return rc, out, txt
 
+def run_sharded(exe, scen, seed, n, params, shards, timeout=900):
+    """Run a scenario as `shards` parallel processes (each takes the slice shard/nshards of the sweep) and concatenate the
+    record files."""
+    if shards <= 1:
+        return run_scenario(exe, scen, seed, n, params, timeout=timeout)
+    from concurrent.futures import ThreadPoolExecutor
+    def one(i):
+        return run_scenario(exe, scen, seed, n, dict(params or {}, shard=i, nshards=shards), timeout=timeout)
+    with ThreadPoolExecutor(max_workers=shards) as ex:
+        res = list(ex.map(one, range(shards)))
+    out = os.path.join(scratch(), "%s-%d-merged-%d.rec" % (scen, seed, random.randrange(1 << 30)))
+    rc, txt = 0, ""
+    stats = {}
+    with open(out, "w") as w:
+        for (r, rec, t) in res:
+            if r != 0:
+                rc = r
+                txt += t
+            if os.path.exists(rec):
+                for line in open(rec):
+                    if line.startswith("STAT "):
+                        k = line.split()
+                        stats[k[1]] = stats.get(k[1], 0) + int(k[2])
+                    else:
+                        w.write(line)
+                os.remove(rec)
+        for k, v in sorted(stats.items()):
+            w.write("STAT %s %d\n" % (k, v))
+    return rc, out, txt
+
 def run_checker(recfile, timeout=900):
     rc, out = sh([checker_exe(), recfile], timeout=timeout)
     mism = [l for l in out.split("\n") if l.startswith("MISMATCH")]
